@@ -28,7 +28,7 @@ from core import f2b, b2f, fl
 from c03c04_common import MODEL_NAMES, StubModel, build_model, cloud, model_sample
 
 WARN_TEXT = "Could not achieve the required precision"
-NONNEG_CLOUDS = ["ties", "pareto", "lattice", "zeros", "heavy", "mixture"]
+NONNEG_CLOUDS = ["ties", "pareto", "lattice", "zeros", "heavy", "mixture", "intcounts"]
 
 
 # ---------------------------------------------------------------------------
@@ -129,6 +129,9 @@ def run_impl(case):
     alpha, deg, err = case["alpha"], case["deg"], case["err"]
     sample = make_sample(case) if case.get("supplied", True) else None
     model = make_model(case, sample)
+    # unusual but legitimate option combination: an explicit n together with a supplied sample (n is only the
+    # size of a sample the contour draws itself; it must not influence anything when a sample is supplied)
+    n_kw = {"n": int(case["n_with_sample"])} if (sample is not None and case.get("n_with_sample")) else {}
     out = {}
     try:
         with warnings.catch_warnings(record=True) as w:
@@ -137,10 +140,10 @@ def run_impl(case):
                 np.random.seed(case["sseed"] % (2**32))
             if case["kind"] == "and":
                 c = AndContour(model, alpha, deg_step=deg, sample=None if sample is None else sample.copy(),
-                               allowed_error=err)
+                               allowed_error=err, **n_kw)
             else:
                 c = OrContour(model, alpha, deg_step=deg, sample=None if sample is None else sample.copy(),
-                              allowed_error=err, lowest_theta=case["lo"], highest_theta=case["hi"])
+                              allowed_error=err, lowest_theta=case["lo"], highest_theta=case["hi"], **n_kw)
         out["nwarn"] = sum(1 for m in w if issubclass(m.category, UserWarning) and WARN_TEXT in str(m.message))
         co = c.coordinates
         out["coords"] = np.array([[_scalar(co[i][0]), _scalar(co[i][1])] for i in range(len(co))], dtype=float).reshape(-1, 2)
@@ -394,6 +397,7 @@ def random_cases(rng, count, nmax, budget):
         deg = float(deg) if float(deg) != int(deg) else int(deg)
         n = int(rng.choice([200, 500, 1000, 2000, 5000, 10000, nmax]))
         case = {"gen": "random", "kind": kind, "alpha": alpha, "err": err, "deg": deg, "supplied": True,
+                "n_with_sample": (int(rng.choice([137, 1000, 50000])) if rng.integers(0, 5) == 0 else None),
                 "sseed": int(rng.integers(0, 2**31))}
         if kind == "or":
             case["lo"], case["hi"] = [(10, 80), (0, 90), (5, 85), (20, 70), (0, 80), (10, 90), (2.5, 87.5)][int(rng.integers(0, 7))]
